@@ -85,5 +85,190 @@ theorem walkOK : ∀ v : Val, nodupVal v = true → WalkOK v := by
       (fun kv h => ih kv.2 (mem_enumItems _ _ kv h) (nodupList_mem _ hn kv.2 (mem_enumItems _ _ kv h)))
       (nodup_enumItems _ _)
 
+/-! ### Post-order is a permutation of pre-order -/
+
+theorem visitsPostItems_perm (items : Items)
+    (ih : ∀ kv ∈ items, ∀ pre, (visitsPost kv.2 pre).Perm (visitsPre kv.2 pre)) :
+    ∀ pre, (visitsPostItems items pre).Perm (visitsPreItems items pre) := by
+  induction items with
+  | nil => intro pre; simp [visitsPostItems, visitsPreItems]
+  | cons kv rest ihl =>
+    obtain ⟨k, c⟩ := kv
+    intro pre
+    simp only [visitsPostItems, visitsPreItems]
+    exact List.Perm.append (ih (k, c) (by simp) _) (ihl (fun kv h => ih kv (by simp [h])) pre)
+
+theorem visitsPostList_perm (items : List Val)
+    (ih : ∀ x ∈ items, ∀ pre, (visitsPost x pre).Perm (visitsPre x pre)) :
+    ∀ pre i, (visitsPostList items pre i).Perm (visitsPreList items pre i) := by
+  induction items with
+  | nil => intro pre i; simp [visitsPostList, visitsPreList]
+  | cons x rest ihl =>
+    intro pre i
+    simp only [visitsPostList, visitsPreList]
+    exact List.Perm.append (ih x (by simp) _) (ihl (fun y h => ih y (by simp [h])) pre (i + 1))
+
+/-- the post-order log is a rearrangement of the pre-order log (same visits, other order). -/
+theorem visitsPost_perm : ∀ (v : Val) (pre : Path), (visitsPost v pre).Perm (visitsPre v pre) := by
+  apply ind'
+  · intro a pre; simp [visitsPost, visitsPre]
+  · intro items ih pre
+    simp only [visitsPost, visitsPre]
+    have h1 := visitsPostItems_perm items ih pre
+    exact (List.perm_append_comm).trans (List.Perm.cons _ h1)
+  · intro l ih pre
+    simp only [visitsPost, visitsPre]
+    have h1 := visitsPostList_perm l ih pre 0
+    exact (List.perm_append_comm).trans (List.Perm.cons _ h1)
+
+/-! ### The printed-path dictionaries of `pg.query` / the rebinder have no collisions -/
+
+mutual
+  /-- every dict key below the value is well-formed (int, or non-empty bracket-balanced str). -/
+  def wfVal : Val → Bool
+    | .leaf _ => true
+    | .dict items => wfItems items
+    | .list items => wfList items
+  def wfItems : Items → Bool
+    | [] => true
+    | (k, v) :: rest => wfKey k && wfVal v && wfItems rest
+  def wfList : List Val → Bool
+    | [] => true
+    | v :: rest => wfVal v && wfList rest
+end
+
+theorem wfItems_mem : ∀ items : Items, wfItems items = true → ∀ kv ∈ items, wfKey kv.1 = true ∧ wfVal kv.2 = true := by
+  intro items
+  induction items with
+  | nil => intro _ kv h; cases h
+  | cons kv0 rest ih =>
+    obtain ⟨k, c⟩ := kv0
+    intro h kv hm
+    simp only [wfItems, Bool.and_eq_true] at h
+    rcases List.mem_cons.mp hm with e | hm
+    · subst e; exact ⟨h.1.1, h.1.2⟩
+    · exact ih h.2 kv hm
+
+theorem wfList_mem : ∀ l : List Val, wfList l = true → ∀ x ∈ l, wfVal x = true := by
+  intro l
+  induction l with
+  | nil => intro _ x h; cases h
+  | cons v rest ih =>
+    intro h x hm
+    simp only [wfList, Bool.and_eq_true] at h
+    rcases List.mem_cons.mp hm with e | hm
+    · subst e; exact h.1
+    · exact ih h.2 x hm
+
+theorem wfKeys_append (p q : Path) : wfKeys (p ++ q) = (wfKeys p && wfKeys q) := by
+  simp [wfKeys]
+
+def WalkWF (v : Val) : Prop :=
+  ∀ pre : Path, wfKeys pre = true → ∀ q ∈ (visitsPre v pre).map (·.1), wfKeys q = true
+
+theorem visitsPreItems_wf (items : Items) (ih : ∀ kv ∈ items, wfKey kv.1 = true ∧ WalkWF kv.2) :
+    ∀ pre : Path, wfKeys pre = true → ∀ q ∈ (visitsPreItems items pre).map (·.1), wfKeys q = true := by
+  induction items with
+  | nil => intro pre _ q h; simp [visitsPreItems] at h
+  | cons kv rest ihl =>
+    obtain ⟨k, c⟩ := kv
+    intro pre hpre q hq
+    simp only [visitsPreItems, List.map_append, List.mem_append] at hq
+    rcases hq with hq | hq
+    · have h0 := ih (k, c) (by simp)
+      exact h0.2 (pre ++ [k]) (by rw [wfKeys_append, hpre]; simp [wfKeys, h0.1]) q hq
+    · exact ihl (fun kv h => ih kv (by simp [h])) pre hpre q hq
+
+theorem wfKey_enumItems : ∀ (l : List Val) (i : Nat), ∀ kv ∈ enumItems i l, wfKey kv.1 = true := by
+  intro l
+  induction l with
+  | nil => intro i kv h; simp [enumItems] at h
+  | cons v rest ih =>
+    intro i kv h
+    simp only [enumItems, List.mem_cons] at h
+    rcases h with h | h
+    · subst h; rfl
+    · exact ih (i + 1) kv h
+
+theorem walkWF : ∀ v : Val, wfVal v = true → WalkWF v := by
+  apply ind'
+  · intro a _ pre hpre q hq
+    simp only [visitsPre, List.map_cons, List.map_nil, List.mem_singleton] at hq
+    subst hq; exact hpre
+  · intro items ih hw pre hpre q hq
+    simp only [wfVal] at hw
+    simp only [visitsPre, List.map_cons, List.mem_cons] at hq
+    rcases hq with hq | hq
+    · subst hq; exact hpre
+    · exact visitsPreItems_wf items
+        (fun kv h => ⟨(wfItems_mem _ hw kv h).1, ih kv h (wfItems_mem _ hw kv h).2⟩) pre hpre q hq
+  · intro l ih hw pre hpre q hq
+    simp only [wfVal] at hw
+    simp only [visitsPre, List.map_cons, List.mem_cons, visitsPreList_eq] at hq
+    rcases hq with hq | hq
+    · subst hq; exact hpre
+    · exact visitsPreItems_wf (enumItems 0 l)
+        (fun kv h => ⟨wfKey_enumItems l 0 kv h, ih kv.2 (mem_enumItems _ _ kv h) (wfList_mem _ hw kv.2 (mem_enumItems _ _ kv h))⟩)
+        pre hpre q hq
+
+theorem nodup_filterMap_fst {α β : Type} (h : α × β → Option (α × β)) (hfst : ∀ x y, h x = some y → y.1 = x.1) :
+    ∀ L : List (α × β), (L.map (·.1)).Nodup → ((L.filterMap h).map (·.1)).Nodup ∧
+      ∀ y ∈ L.filterMap h, y.1 ∈ L.map (·.1) := by
+  intro L
+  induction L with
+  | nil => intro _; simp
+  | cons x rest ih =>
+    intro hn
+    simp only [List.map_cons, List.nodup_cons] at hn
+    obtain ⟨ih1, ih2⟩ := ih hn.2
+    simp only [List.filterMap_cons]
+    cases hx : h x with
+    | none =>
+      exact ⟨ih1, fun y hy => by simp only [List.map_cons, List.mem_cons]; exact Or.inr (ih2 y hy)⟩
+    | some y0 =>
+      have e := hfst x y0 hx
+      constructor
+      · simp only [List.map_cons, List.nodup_cons]
+        refine ⟨?_, ih1⟩
+        intro hm
+        obtain ⟨y, hy, e'⟩ := List.mem_map.mp hm
+        have := ih2 y hy
+        rw [e', e] at this
+        exact hn.1 this
+      · intro y hy
+        simp only [List.map_cons, List.mem_cons]
+        rcases List.mem_cons.mp hy with hy | hy
+        · subst hy; exact Or.inl e
+        · exact Or.inr (ih2 y hy)
+
+/-- A dictionary keyed by the printed paths of (some of) the visits has one entry per selected
+visit, in visiting order: no two visits of a well-formed value collide. -/
+theorem printedDict_exact (v : Val) (hn : nodupVal v = true) (hw : wfVal v = true)
+    (h : Path × Val → Option (Path × Val)) (hfst : ∀ x y, h x = some y → y.1 = x.1) :
+    ((visitsPre v []).filterMap h).foldl (fun acc pv => Assoc.set acc (Key.s (pathStr pv.1)) pv.2) [] =
+      ((visitsPre v []).filterMap h).map (fun pv => (Key.s (pathStr pv.1), pv.2)) := by
+  have hnd := (walkOK v hn []).1
+  obtain ⟨h1, h2⟩ := nodup_filterMap_fst h hfst (visitsPre v []) hnd
+  have hwf := walkWF v hw [] rfl
+  rw [foldl_set_fresh (fun pv : Path × Val => Key.s (pathStr pv.1)) (fun pv => pv.2) _ []]
+  · simp
+  · have : ((visitsPre v []).filterMap h).map (fun pv => Key.s (pathStr pv.1)) =
+        (((visitsPre v []).filterMap h).map (·.1)).map (fun p => Key.s (pathStr p)) := by
+      simp [List.map_map]
+    rw [this]
+    apply nodup_map_on _ _ _ h1
+    intro a ha b hb e
+    obtain ⟨pa, hpa, rfl⟩ := List.mem_map.mp ha
+    obtain ⟨pb, hpb, rfl⟩ := List.mem_map.mp hb
+    injection e with e
+    have w1 := hwf _ (h2 pa hpa)
+    have w2 := hwf _ (h2 pb hpb)
+    have p1 := parse_pathStr asciiClass_laws pa.1 w1
+    have p2 := parse_pathStr asciiClass_laws pb.1 w2
+    rw [e, p2] at p1
+    injection p1 with p1
+    exact p1.symm
+  · intro _ _; rfl
+
 end Val
 end Pg.C10
